@@ -312,18 +312,18 @@ func init() {
 				out = append(out, inst("VerifModf", 2, p("outs", o, "K", 6, "W", 8, "regime", 0)))
 			}
 			out = append(out, levelBDecimalInstances("newwithbigint")...)
-			// Float64 is the nearest float64: 17 digits reach past 2^53 and 10^16, the exponents past
-			// 10^22 (the last power of ten that is a float64)
-			fk, fw := 17, 24
+			// Float64 is the nearest float64: 22 digits reach past 2^53, 10^16, 2^64 and 20 digits (a
+			// pre-rounded coefficient), the exponents past 10^22 (the last power of ten that is a float64)
+			fk, fw := 22, 24
 			if tier == "thorough" {
-				fk, fw = 20, 40
+				fk, fw = 30, 40
 			}
-			out = append(out, inst("VerifFloat64", 6, p("K", fk, "elo", -fw, "ehi", fw, "strictFloat", 1)))
+			out = append(out, inst("VerifFloat64", 6, p("K", fk, "elo", -fw, "ehi", fw, "strictFloat", 1, "maxDigits", fk+8)))
 			return out
 		},
 		PathModels: true, PathModelSample: 60, Assumptions: assumeCommon,
-		Stubs: append([]string{"strconv.ParseFloat(s, 64) on a symbolic digit string: its documented contract - the float64 nearest (IEEE-754 ties to even) to the decimal value of s - stated over exact integers (fresh significand per binade); float64 conversion, negation, comparison, multiplication and division by a CONSTANT float64 are exact integer arithmetic on significand and binary exponent (engine/sym/float.go); no floating-point theory is used"}, stubsLevelA...),
-		Bounds:        map[string]interface{}{"quick": "Int64: coefficients up to 22 digits, exponents -22..22 (each value), zero coefficient with exponent <= 24 and exactly 25, 129, 100000; Modf: 6 digits, exponents -8..8; constructors: all int64 values, all exponents; Float64: every coefficient up to 17 digits, both signs, every exponent in -24..24", "thorough": "Int64 30 digits; Float64 20 digits, exponents -40..40"},
+		Stubs: append([]string{"strconv.ParseFloat(s, 64) on a symbolic digit string: its documented contract - the float64 nearest (IEEE-754 ties to even) to the decimal value of s - stated over exact integers (fresh significand per binade); float64 conversion from and to integers, negation, comparison, Trunc/Floor/Ceil, multiplication and division by a CONSTANT float64 are exact integer arithmetic on significand and binary exponent (engine/sym/float.go); no floating-point theory is used"}, stubsLevelA...),
+		Bounds:        map[string]interface{}{"quick": "Int64: coefficients up to 22 digits, exponents -22..22 (each value), zero coefficient with exponent <= 24 and exactly 25, 129, 100000; Modf: 6 digits, exponents -8..8; constructors: all int64 values, all exponents; Float64: every coefficient up to 22 digits, both signs, every exponent in -24..24", "thorough": "Int64 30 digits; Float64 30 digits, exponents -40..40"},
 		Outside:       []string{"Float64 on longer coefficients or exponents outside the window (in particular results that are subnormal, zero by underflow, or infinite)", "float arithmetic other than the listed operations (two symbolic factors, addition, float32): such a path ends as cut_float and is reported as an excluded region", "SetFloat64 followed by Float64 is decided in C13", "other zero coefficients with exponent > 24 (the x10 loop runs Exponent times)"},
 		RequireCovers: []string{"int64.ok", "int64.error", "float64.ok"}}
 	checkDefs["C19"] = &CheckDef{Prop: "C19", Enable: []string{"C19.", "P.panic"},
